@@ -112,10 +112,16 @@ class DeferredFileWriter(metaclass=Singleton):
         suffix = filename.suffix
         with lock:
             handle, tmp_path = tempfile.mkstemp(suffix=suffix, dir=self._tmpdir)
-        self.open_files.append([tmp_path, filename, mode])
         if '+' in mode and 'r' in mode:
             # If r+, preserve original file contents. Otherwise, truncate.
-            shutil.copy2(str(filename), tmp_path)
+            try:
+                shutil.copy2(str(filename), tmp_path)
+            except OSError:
+                # Nothing is opened: do not leave anything to be written.
+                os.close(handle)
+                os.remove(tmp_path)
+                raise
+        self.open_files.append([tmp_path, filename, mode])
         return os.fdopen(handle, mode, *args, **kwargs)
 
     @staticmethod
